@@ -157,6 +157,9 @@ func (pg *PaillierGroup[X]) UnmarshalCBOR(data []byte) error {
 		if err != nil {
 			return errs.Wrap(err)
 		}
+		if dto.P == nil || dto.Q == nil {
+			return errs.Wrap(ErrIsNil).WithMessage("PaillierGroup: p or q is missing")
+		}
 		reconstructed, err := NewPaillierGroup(dto.P, dto.Q)
 		if err != nil {
 			return errs.Wrap(err)
@@ -167,6 +170,9 @@ func (pg *PaillierGroup[X]) UnmarshalCBOR(data []byte) error {
 		dto, err := serde.UnmarshalCBOR[paillierGroupUnknownOrderDTO](data)
 		if err != nil {
 			return errs.Wrap(err)
+		}
+		if dto.N == nil {
+			return errs.Wrap(ErrIsNil).WithMessage("PaillierGroup: n is missing")
 		}
 		n2 := dto.N.Square()
 		reconstructed, err := NewPaillierGroupOfUnknownOrder(n2, dto.N)
@@ -224,6 +230,9 @@ func (u *PaillierGroupElement[X]) UnmarshalCBOR(data []byte) error {
 		if err != nil {
 			return errs.Wrap(err)
 		}
+		if dto.V == nil || dto.Arithmetic == nil || dto.Arithmetic.P == nil || dto.Arithmetic.Q == nil {
+			return errs.Wrap(ErrIsNil).WithMessage("PaillierGroupElement: v or arithmetic is missing")
+		}
 		p, err := num.NPlus().FromModulusCT(dto.Arithmetic.P.Factor)
 		if err != nil {
 			return errs.Wrap(err)
@@ -247,6 +256,9 @@ func (u *PaillierGroupElement[X]) UnmarshalCBOR(data []byte) error {
 		if err != nil {
 			return errs.Wrap(err)
 		}
+		if dto.V == nil || dto.N == nil {
+			return errs.Wrap(ErrIsNil).WithMessage("PaillierGroupElement: v or n is missing")
+		}
 		n2 := dto.N.Square()
 		g, err := NewPaillierGroupOfUnknownOrder(n2, dto.N)
 		if err != nil {
@@ -261,6 +273,9 @@ func (u *PaillierGroupElement[X]) UnmarshalCBOR(data []byte) error {
 	default:
 		// For initial unmarshal when arith is zero value, try both
 		if dtoKnown, err := serde.UnmarshalCBOR[paillierGroupKnownOrderElementDTO](data); err == nil {
+			if dtoKnown.V == nil || dtoKnown.Arithmetic == nil || dtoKnown.Arithmetic.P == nil || dtoKnown.Arithmetic.Q == nil {
+				return errs.Wrap(ErrIsNil).WithMessage("PaillierGroupElement: v or arithmetic is missing")
+			}
 			p, err := num.NPlus().FromModulusCT(dtoKnown.Arithmetic.P.Factor)
 			if err != nil {
 				return errs.Wrap(err)
@@ -283,6 +298,9 @@ func (u *PaillierGroupElement[X]) UnmarshalCBOR(data []byte) error {
 		dto, err := serde.UnmarshalCBOR[paillierGroupUnknownOrderElementDTO](data)
 		if err != nil {
 			return errs.Wrap(err)
+		}
+		if dto.V == nil || dto.N == nil {
+			return errs.Wrap(ErrIsNil).WithMessage("PaillierGroupElement: v or n is missing")
 		}
 		n2 := dto.N.Square()
 		g, err := NewPaillierGroupOfUnknownOrder(n2, dto.N)
@@ -347,6 +365,9 @@ func (rg *RSAGroup[X]) UnmarshalCBOR(data []byte) error {
 		if err != nil {
 			return errs.Wrap(err)
 		}
+		if dto.P == nil || dto.Q == nil {
+			return errs.Wrap(ErrIsNil).WithMessage("RSAGroup: p or q is missing")
+		}
 		reconstructed, err := NewRSAGroup(dto.P, dto.Q)
 		if err != nil {
 			return errs.Wrap(err)
@@ -357,6 +378,9 @@ func (rg *RSAGroup[X]) UnmarshalCBOR(data []byte) error {
 		dto, err := serde.UnmarshalCBOR[rsaGroupUnknownOrderDTO](data)
 		if err != nil {
 			return errs.Wrap(err)
+		}
+		if dto.Modulus == nil {
+			return errs.Wrap(ErrIsNil).WithMessage("RSAGroup: modulus is missing")
 		}
 		reconstructed, err := NewRSAGroupOfUnknownOrder(dto.Modulus)
 		if err != nil {
@@ -410,6 +434,9 @@ func (u *RSAGroupElement[X]) UnmarshalCBOR(data []byte) error {
 		if err != nil {
 			return errs.Wrap(err)
 		}
+		if dto.V == nil || dto.Arithmetic == nil || dto.Arithmetic.Params == nil {
+			return errs.Wrap(ErrIsNil).WithMessage("RSAGroupElement: v or arithmetic is missing")
+		}
 		p, err := num.NPlus().FromModulusCT(dto.Arithmetic.Params.P)
 		if err != nil {
 			return errs.Wrap(err)
@@ -433,6 +460,9 @@ func (u *RSAGroupElement[X]) UnmarshalCBOR(data []byte) error {
 		if err != nil {
 			return errs.Wrap(err)
 		}
+		if dto.V == nil {
+			return errs.Wrap(ErrIsNil).WithMessage("RSAGroupElement: v is missing")
+		}
 		g, err := NewRSAGroupOfUnknownOrder(dto.V.Modulus())
 		if err != nil {
 			return errs.Wrap(err)
@@ -446,6 +476,9 @@ func (u *RSAGroupElement[X]) UnmarshalCBOR(data []byte) error {
 	default:
 		// For initial unmarshal when arith is zero value, try both
 		if dtoKnown, err := serde.UnmarshalCBOR[rsaGroupKnownOrderElementDTO](data); err == nil {
+			if dtoKnown.V == nil || dtoKnown.Arithmetic == nil || dtoKnown.Arithmetic.Params == nil {
+				return errs.Wrap(ErrIsNil).WithMessage("RSAGroupElement: v or arithmetic is missing")
+			}
 			p, err := num.NPlus().FromModulusCT(dtoKnown.Arithmetic.Params.P)
 			if err != nil {
 				return errs.Wrap(err)
@@ -468,6 +501,9 @@ func (u *RSAGroupElement[X]) UnmarshalCBOR(data []byte) error {
 		dto, err := serde.UnmarshalCBOR[rsaGroupUnknownOrderElementDTO](data)
 		if err != nil {
 			return errs.Wrap(err)
+		}
+		if dto.V == nil {
+			return errs.Wrap(ErrIsNil).WithMessage("RSAGroupElement: v is missing")
 		}
 		g, err := NewRSAGroupOfUnknownOrder(dto.V.Modulus())
 		if err != nil {
